@@ -907,10 +907,12 @@ Proof.
 Qed.
 
 Theorem poscar_read_spec g N Nchem s0 cl :
-  guard_ok g Nchem -> Inv N Nchem s0 -> clipOK N Nchem cl ->
+  (0 < Nchem)%nat -> guard_ok g Nchem -> Inv N Nchem s0 -> clipOK N Nchem cl ->
   exists s', poscar_read g cl s0 = (s', OK) /\ Inv N Nchem s' /\ chemorder s' = cl.
 Proof.
-  intros G I [Lc [C1 [C2 C3]]]. unfold poscar_read. rewrite (vacate_spec g N Nchem s0 G I).
+  intros Hpos G I [Lc [C1 [C2 C3]]]. unfold poscar_read.
+  destruct cl as [|cl0 clt] eqn:Ecl; [cbn in Lc; lia|]. rewrite <- Ecl in *. clear Ecl cl0 clt.
+  rewrite (vacate_spec g N Nchem s0 G I).
   rewrite read_calls_rcalls.
   assert (Iinit : Inv N Nchem (init_sc N Nchem)).
   { assert (X := vacate_spec g N Nchem s0 G I).
@@ -935,11 +937,11 @@ Qed.
 
 (* writing a POSCAR and reading it back (into any consistent supercell) reproduces occupation and ordering *)
 Theorem poscar_roundtrip g N Nchem s s0 :
-  guard_ok g Nchem -> Inv N Nchem s -> Inv N Nchem s0 ->
+  (0 < Nchem)%nat -> guard_ok g Nchem -> Inv N Nchem s -> Inv N Nchem s0 ->
   exists content, poscar_write s = Some content /\ poscar_read g content s0 = (s, OK).
 Proof.
-  intros G I I0. exists (chemorder s). split; [apply (poscar_write_spec N Nchem), I|].
-  destruct (poscar_read_spec g N Nchem s0 (chemorder s) G I0 (inv_clipOK _ _ _ I)) as [s' [E [I' Ec]]].
+  intros Hpos G I I0. exists (chemorder s). split; [apply (poscar_write_spec N Nchem), I|].
+  destruct (poscar_read_spec g N Nchem s0 (chemorder s) Hpos G I0 (inv_clipOK _ _ _ I)) as [s' [E [I' Ec]]].
   rewrite E. f_equal. apply sc_eq; [|exact Ec]. apply (inv_occ_determined N Nchem); assumption.
 Qed.
 
@@ -976,9 +978,9 @@ Proof.
 Qed.
 
 Theorem step_inv g N Nchem m o :
-  guard_ok g Nchem -> MInv N Nchem m -> op_dom N Nchem o -> MInv N Nchem (fst (step g m o)).
+  (0 < Nchem)%nat -> guard_ok g Nchem -> MInv N Nchem m -> op_dom N Nchem o -> MInv N Nchem (fst (step g m o)).
 Proof.
-  intros G [Ic [Is Cl]] D. destruct o; cbn [step fst snd cur saved clip op_dom] in *.
+  intros Hpos G [Ic [Is Cl]] D. destruct o; cbn [step fst snd cur saved clip op_dom] in *.
   - split; [|split; assumption]. apply (setocc_inv g N Nchem G); assumption.
   - split; [|split; assumption]. apply (fillperiodic_inv g N Nchem G); assumption.
   - split; [|split]; assumption.
@@ -989,27 +991,27 @@ Proof.
   - rewrite (poscar_write_spec N Nchem _ Ic). cbn [fst cur saved clip]. split; [|split]; try assumption.
     apply inv_clipOK, Ic.
   - split; [|split; assumption].
-    destruct (poscar_read_spec g N Nchem (cur m) (clip m) G Ic Cl) as [s' [E [I' _]]]. rewrite E. exact I'.
+    destruct (poscar_read_spec g N Nchem (cur m) (clip m) Hpos G Ic Cl) as [s' [E [I' _]]]. rewrite E. exact I'.
 Qed.
 
-Theorem history_inv g N Nchem : guard_ok g Nchem -> forall ops m,
+Theorem history_inv g N Nchem : (0 < Nchem)%nat -> guard_ok g Nchem -> forall ops m,
   MInv N Nchem m -> Forall (op_dom N Nchem) ops -> MInv N Nchem (run g m ops).
 Proof.
-  intros G. induction ops as [|o t IH]; intros m I HF; cbn [run]; [exact I|].
+  intros Hpos G. induction ops as [|o t IH]; intros m I HF; cbn [run]; [exact I|].
   inversion HF as [|? ? Ho HF']; subst. apply IH; [|exact HF']. apply step_inv; assumption.
 Qed.
 
 (* at every point of every history: declared species are accepted, all others rejected with nothing changed *)
 Theorem history_species g N Nchem ops i c :
-  guard_ok g Nchem -> Forall (op_dom N Nchem) ops -> 0 <= i < Z.of_nat N ->
+  (0 < Nchem)%nat -> guard_ok g Nchem -> Forall (op_dom N Nchem) ops -> 0 <= i < Z.of_nat N ->
   let s := cur (run g (init N Nchem) ops) in
   (declared Nchem c -> exists s', setocc g s i c = (s', OK) /\ Inv N Nchem s' /\
                                   nth_error (occ s') (Z.to_nat i) = Some c /\
                                   forall k, k <> Z.to_nat i -> nth_error (occ s') k = nth_error (occ s) k) /\
   (~ declared Nchem c -> setocc g s i c = (s, IndexError)).
 Proof.
-  intros G HF Hi s.
-  assert (I : Inv N Nchem s) by (apply (history_inv g N Nchem G ops (init N Nchem) (init_minv N Nchem) HF)).
+  intros Hpos G HF Hi s.
+  assert (I : Inv N Nchem s) by (apply (history_inv g N Nchem Hpos G ops (init N Nchem) (init_minv N Nchem) HF)).
   split.
   - intros Hc. destruct (setocc_accepts g N Nchem G s i c I Hi Hc) as [s' [E [I' O]]].
     exists s'. split; [exact E|]. split; [exact I'|]. rewrite O. split.
